@@ -1,5 +1,5 @@
 """C20 extract variable and extract function preserve behaviour."""
-REG_DRAFT = dict(
+REG = dict(
     engine='E1-enum',
     technique='bounded-exhaustive enumeration of (placement x statement context x pure expression) programs and of every pure sub-expression span / side-effect-free statement run in them; both extraction tools run on each span, the produced program is parsed and run on the real interpreter and compared with the original run',
     text='Programs: a pure, total expression E (17 shapes quick / 25 thorough: operators, helper calls, method calls, if / match expressions with bare and braced arms, closures capturing a variable, struct / list / tuple / dict literals) in a statement context (let right-hand side, call argument, unused statement, last expression of a block, if condition, loop header, closure body, runs of local lets; thorough: return / assert / method argument) placed at top level, in a top-level block, a function, a test, and inside if / else / for / match-arm / closure / while bodies of a function (thorough: two nested bodies, methods, one-line layouts of every body). For every pure non-leaf expression span inside the context statements (thorough: every expression span) extract_variable and extract_function with the fresh name zz9, and extract_function for every run of sibling statements that is side-effect free and binds nothing used later. Oracle: a produced program parses; if the original run ends ok the produced program has the same stdout, the same final value and the same test verdicts. Refusals are counted as declined.',
